@@ -14,8 +14,9 @@ RULE = (
     "degenerate MVN: dimensions 1-12, ranks 1..m, batch shapes (),(3,),(2,3); penalties with random "
     "spectrum and RW1/RW2 difference penalties; variances over three decades; points from the "
     "distribution shifted by random null-space vectors; constructors __init__/from_penalty/"
-    "from_penalty_smooth with/without rank and log_pdet; 40 000 samples per sampling case; float32 and "
-    "x64. Bijector: points in +-[1e-3,30]. Copula: dependence on a grid and random in (-1,1) incl. "
+    "from_penalty_smooth with/without rank and log_pdet (penalty constructors also with variances 1e-4..1e8); 40 000 samples "
+    "per sampling case, batched variances of very different scales; float32 and x64. Bijector: points in +-[1e-3,30] "
+    "(x64: 3e4), inverse applied to independently built arrays. Copula also with batched dependence. Copula: dependence on a grid and random in (-1,1) incl. "
     "+-0.999, points of the unit square, validate_args False/True, eager and jit. non-trivial = MVN case "
     "with rank<m and a non-zero null-space shift, copula case with |rho|>0.1; distinct by parameter hash"
 )
